@@ -1384,6 +1384,10 @@ def apply(f: Callable, args: ISeq | None):
     # None instead), so this cannot trigger a ValueError.
     *final, last = list(args)
 
+    if isinstance(f, Var):
+        # Apply the Var's function itself so its `apply_to` is found
+        f = f.value
+
     s = to_seq(last)
     if s is not None:
         if getattr(f, "_basilisp_fn", False) and hasattr(f, "apply_to"):
